@@ -649,6 +649,60 @@ func main() {
 		}
 		do(s)
 	}
+	// batch-split-update family: ONE Set call adds ids that push a leaf over the threshold (the leaf is divided
+	// while the batch is being applied) and, later in the same call, changes the head of an id that already lived in
+	// that leaf; the peer holds the old head, so exactly that id must be reported as changed (both directions)
+	nbs := n / 8
+	for k := 0; k < nbs; k++ {
+		df := ldiffh.Dfs[r.Intn(len(ldiffh.Dfs))]
+		th := 1 + r.Intn(4)
+		base := r.U64() &^ 0xffff
+		salt := uint64(r.Intn(1000))
+		var cluster []ldiffh.El // th elements close together: one full leaf after the first Set
+		for i := 0; i < th; i++ {
+			cluster = append(cluster, ldiffh.El{Salt: salt, Hash: base + uint64(i)*16, Head: r.Intn(5)})
+			salt++
+		}
+		var far []ldiffh.El
+		for i := 0; i < r.Intn(6); i++ {
+			far = append(far, ldiffh.El{Salt: salt, Hash: r.U64(), Head: r.Intn(5)})
+			salt++
+		}
+		var fresh []ldiffh.El
+		for i := 0; i < 1+r.Intn(3); i++ {
+			fresh = append(fresh, ldiffh.El{Salt: salt, Hash: base + uint64(i)*16 + 1 + uint64(r.Intn(14)), Head: r.Intn(5)})
+			salt++
+		}
+		victim := cluster[r.Intn(len(cluster))]
+		updated := victim
+		updated.Head = victim.Head + 100
+		baseSet := append(append([]ldiffh.El{}, cluster...), far...)
+		batch := append(append([]ldiffh.El{}, fresh...), updated)
+		if r.Chance(1, 4) { // the update first, then the additions (control: no split before the update)
+			batch = append([]ldiffh.El{updated}, fresh...)
+		}
+		var L, R []ldiffh.El
+		for _, e := range baseSet {
+			if e == victim {
+				L = append(L, updated)
+			} else {
+				L = append(L, e)
+			}
+			R = append(R, e)
+		}
+		L = append(L, fresh...)
+		opsR := []hop{{Set: baseSet}}
+		if r.Bool() { // the peer has the new ids too: the changed head is the only difference
+			R = append(R, fresh...)
+			opsR = append(opsR, hop{Set: fresh})
+		}
+		s := spec{Df: df, Th: th, L: L, R: R, OpsL: []hop{{Set: baseSet}, {Set: batch}}, OpsR: opsR,
+			Variant: []string{"diff", "compare"}[r.Intn(2)], Wire: r.Chance(1, 4), Shape: "batch_split_update"}
+		if r.Bool() { // the other direction: the index built by the mixed batch answers
+			s.L, s.R, s.OpsL, s.OpsR = s.R, s.L, s.OpsR, s.OpsL
+		}
+		do(s)
+	}
 	// production parameters around the threshold
 	np := 6
 	if o.Tier == "thorough" {
